@@ -37,6 +37,8 @@ class Ring:
         self.units = []            # atoms declared non-zero
         self._points = {}
         self._fp_cache = {}
+        self._ev_memo = {}
+        self._ev_keep = []
         self._ut = None
         self._ut_key = None
         self._Q = modulus if modulus is not None else (1 << 127) - 1
@@ -74,16 +76,65 @@ class Ring:
         c = self._fp_cache.get(i)
         if c is not None and c[0].eq(t):
             return c[1]
-        vs = _vars_of(t)
-        if vs:
-            e = z3.simplify(z3.substitute(t, *[(v, z3.IntVal(self._point(v))) for v in vs]))
-        else:
-            e = z3.simplify(t)
-        if not z3.is_int_value(e):
-            raise Unsupported("polynomial did not evaluate to a number: %s" % core._short(e))
-        r = e.as_long() % self._Q
+        r = self._eval_mod(t)
+        if r is None:
+            vs = _vars_of(t)
+            if vs:
+                e = z3.simplify(z3.substitute(t, *[(v, z3.IntVal(self._point(v))) for v in vs]))
+            else:
+                e = z3.simplify(t)
+            if not z3.is_int_value(e):
+                raise Unsupported("polynomial did not evaluate to a number: %s" % core._short(e))
+            r = int(e.as_string()) % self._Q
         self._fp_cache[i] = (t, r)
         return r
+
+    def _eval_mod(self, t):
+        """evaluate a pure +,*,- polynomial term DAG at the fixed point, modulo Q (iterative, memoised).
+        Returns None when the term contains other operators."""
+        Q = self._Q
+        memo = self._ev_memo
+        self._ev_keep.append(t)      # keep the DAG alive: z3 ast ids are only unique among live terms
+        stack = [(t, False)]
+        while stack:
+            e, done = stack.pop()
+            i = e.get_id()
+            if i in memo:
+                continue
+            k = e.decl().kind()
+            if z3.is_int_value(e):
+                memo[i] = int(e.as_string()) % Q
+                continue
+            if k == z3.Z3_OP_UNINTERPRETED and e.num_args() == 0:
+                memo[i] = self._point(e) % Q
+                continue
+            if k not in (z3.Z3_OP_ADD, z3.Z3_OP_MUL, z3.Z3_OP_SUB, z3.Z3_OP_UMINUS) and not \
+                    (k == z3.Z3_OP_MOD and self.modulus is not None and z3.is_int_value(e.arg(1)) and e.arg(1).as_long() == self.modulus):
+                return None
+            ch = e.children()
+            if not done:
+                stack.append((e, True))
+                for c in ch:
+                    if c.get_id() not in memo:
+                        stack.append((c, False))
+                continue
+            vals = [memo[c.get_id()] for c in ch]
+            if k == z3.Z3_OP_ADD:
+                v = sum(vals) % Q
+            elif k == z3.Z3_OP_MUL:
+                v = 1
+                for x in vals:
+                    v = v * x % Q
+            elif k == z3.Z3_OP_SUB:
+                v = vals[0]
+                for x in vals[1:]:
+                    v = (v - x) % Q
+            elif k == z3.Z3_OP_UMINUS:
+                v = (-vals[0]) % Q
+            else:
+                v = vals[0] % Q
+            memo[i] = v
+        return memo[t.get_id()]
 
     def is_identically_zero(self, t, timeout_ms=20000):
         """Decide t == 0 (mod m) as an identity.  Returns "zero" | "nonzero" | "unknown".
